@@ -47,8 +47,18 @@ class LeanSide:
     def build(cls):
         if cls._built is None:
             t = time.time()
-            p = subprocess.run(["lake", "build", "LianVerif", "lvdrv"], cwd=LEAN,
-                               capture_output=True, text=True)
+            for attempt in range(3):
+                p = subprocess.run(["lake", "build", "LianVerif", "lvdrv"], cwd=LEAN,
+                                   capture_output=True, text=True)
+                log = p.stdout + p.stderr
+                # resource exhaustion is a harness problem, not a broken proof: retry, then exit 2
+                if p.returncode != 0 and re.search(r"failed to create thread|Cannot allocate memory|std::bad_alloc|Killed", log) \
+                        and not re.search(r"\.lean:\d+:\d+", log):
+                    time.sleep(5)
+                    continue
+                break
+            else:
+                raise RuntimeError("lake build could not run (resource exhaustion): " + log[-600:])
             cls._built = (p.returncode == 0 and os.path.exists(DRV),
                           (p.stdout + p.stderr)[-4000:], time.time() - t)
         return cls._built
@@ -93,14 +103,26 @@ class LeanSide:
             f.write(f"import {module}\n")
             for n in names:
                 f.write(f"#print axioms {n}\n")
-        p = subprocess.run(["lake", "env", "lean", afile], cwd=LEAN, capture_output=True, text=True)
-        os.unlink(afile)
-        out = p.stdout + p.stderr
         seen = {}
-        for m in re.finditer(r"'([^']+)' depends on axioms: \[([^\]]*)\]", out, flags=re.S):
-            seen[m.group(1)] = [a.strip() for a in m.group(2).replace("\n", " ").split(",") if a.strip()]
-        for m in re.finditer(r"'([^']+)' does not depend on any axioms", out):
-            seen[m.group(1)] = []
+        out = ""
+        for attempt in range(3):
+            p = subprocess.run(["lake", "env", "lean", afile], cwd=LEAN, capture_output=True, text=True)
+            out = p.stdout + p.stderr
+            seen = {}
+            for m in re.finditer(r"'([^']+)' depends on axioms: \[([^\]]*)\]", out, flags=re.S):
+                seen[m.group(1)] = [a.strip() for a in m.group(2).replace("\n", " ").split(",") if a.strip()]
+            for m in re.finditer(r"'([^']+)' does not depend on any axioms", out):
+                seen[m.group(1)] = []
+            # a theorem that is really missing produces an elaboration error naming it; a lean process that
+            # could not start / was killed produces neither output nor such an error: inconclusive, retry
+            unexplained = [n for n in names if n not in seen and n.split(".")[-1] not in out]
+            if not unexplained:
+                break
+            time.sleep(2)
+        else:
+            os.unlink(afile)
+            raise RuntimeError("audit inconclusive (lean did not run to completion): " + out[-600:])
+        os.unlink(afile)
         for n in names:
             if n not in seen:
                 res["failures"].append({"theorem": n, "reason": "missing or does not elaborate"})
